@@ -13,6 +13,7 @@ QUICK = os.environ.get("VF_TIER", "quick") != "thorough"
 L = int(os.environ.get("VF_L", "0")) or (3 if QUICK else 4)
 LIT = "aAbB*"
 RX = re.compile("[aAbB*]{0,%d}" % L)     # value domain, stated as a regular constraint (no per-character forking)
+CASEFIX = int(os.environ.get("VF_CASE", "-1"))   # is_case fixed by the job (cube split), -1: symbolic
 KFIX = int(os.environ.get("VF_K", "-1"))  # one job per table entry: k is fixed per process
 
 GLOBS = ["a", "A", "a*", "*b", "?", "a?b", "*", "", "A*", "?*", "ab", "*a*", "B?"]
@@ -125,6 +126,45 @@ def h_absolute_means_equality(value: str, k: int, is_case: bool, is_re: bool) ->
     return True
 
 
+# bus-bit names carry brackets ("data[3]", hierarchical wire names): only * and ? are wildcards (as documented),
+# every other character of a non-regex pattern -- brackets included -- stands for itself
+BR_GLOBS = ["a[b]", "[a]", "?[b]", "a[*", "]a", "a[b]*", "A[B]"]
+# value domain: every string of the shape  [aA]? "["? [bB]? "]"? [aA]?  (108 strings: "ab", "a[b]", "[a]", "]a", "A[B]a", ...)
+RXB = re.compile("[aA]?\\[?[bB]?\\]?[aA]?")
+
+
+def _brlang(k: int, v: str, nocase: bool) -> bool:
+    if nocase:
+        v = v.lower()
+    if k == 0:
+        return v == "a[b]"
+    if k == 1:
+        return v == "[a]"
+    if k == 2:
+        return len(v) == 4 and v[1:] == "[b]"
+    if k == 3:
+        return v.startswith("a[")
+    if k == 4:
+        return v == "]a"
+    if k == 5:
+        return v.startswith("a[b]")
+    if k == 6:
+        return v == ("a[b]" if nocase else "A[B]")
+    return False
+
+
+def h_brackets_are_literal(value: str, k: int, is_case: bool) -> bool:
+    """
+    pre: RXB.fullmatch(value)
+    pre: 0 <= k < 7 and (KFIX < 0 or k == KFIX)
+    pre: CASEFIX < 0 or is_case == (CASEFIX == 1)
+    pre: True  # EXCLUSIONS
+    post: _ == True
+    """
+    got = bool(_value_matches_pattern(value, BR_GLOBS[k], is_case, False))
+    return got == _brlang(k, value, not is_case)
+
+
 # fixed regular expressions with hand-written languages (values over LIT, no newline)
 REGEXES = ["a", "a.*", "[ab]", "a|bb", "A?b", ".", "(a", "ab+"]
 
@@ -216,7 +256,9 @@ def h_answers_do_not_depend_on_history(value: str, k: int, first_case: bool, is_
 
 
 for _f in (h_glob_case_sensitive, h_glob_ignore_case, h_none_value_is_empty,
-           h_absolute_means_equality, h_regex_fullmatch, h_answers_do_not_depend_on_history):
+           h_absolute_means_equality, h_regex_fullmatch, h_answers_do_not_depend_on_history,
+           h_brackets_are_literal):
     _f.encodes = [_value_matches_pattern, _is_pattern_absolute]
     _f.bounds = {"max_value_len": L, "value_alphabet": LIT, "glob_table": GLOBS,
-                 "regex_table": REGEXES}
+                 "regex_table": REGEXES, "bracket_glob_table": BR_GLOBS,
+                 "bracket_value_domain": "[aA]?\\[?[bB]?\\]?[aA]? (108 strings)"}
